@@ -403,7 +403,7 @@ def copy_node(n):
     return _c.deepcopy(n)
 
 
-def conc_template(depth, fan, width=2, map_at=None, async_leaves=True, sync_last=False, pool=False, gen_last=False, bad_arity=False, wrap=False):
+def conc_template(depth, fan, width=2, map_at=None, async_leaves=True, sync_last=False, pool=False, gen_last=False, bad_arity=False, wrap=False, cached=False):
     """Nested / mapped shape for the concurrency checks: `depth` nested graph levels, each with
     `width` parallel leaves and a join; at level `map_at` the nested node maps over a list of `fan`
     items.  Returns (prog, provided, lists)."""
@@ -411,7 +411,7 @@ def conc_template(depth, fan, width=2, map_at=None, async_leaves=True, sync_last
         # gen_last: the last leaf of every level is an ASYNC GENERATOR (its body runs while the runner drains it)
         if gen_last and (name == f"T{width - 1}" or (name[0] == "L" and name.endswith(f"_{width - 1}"))):
             return IR.func(name, ins, outs, is_async=True, fn="gen")
-        return IR.func(name, ins, outs, is_async=async_leaves and not sync)
+        return IR.func(name, ins, outs, is_async=async_leaves and not sync, cache=cached)      # cached: every function is cache=True
 
     def level(d):
         """program of nesting level d (1 = outermost nested graph); its input is `v` (and the list
